@@ -21,8 +21,9 @@ class RecDom(RecorderDomain):
     def __init__(self, *a, **kw):
         self.variant = kw.pop('variant', 'idle')
         track_attrs = kw.pop('track_attrs', ())
+        self.assume_attrs = dict(kw.pop('assume_attrs', None) or {})     # option of the active parameters -> truth assumed for the whole run
         RecorderDomain.__init__(self, *a, **kw)
-        self.track_attrs = set(track_attrs)
+        self.track_attrs = set(track_attrs) | set(self.assume_attrs)
         self.at_calls = []      # (node, target, state) for selected labels, for rules that inspect call-site states
         self.at_enters = []     # (node, state after parameter binding) for inlined record-output calls
 
@@ -34,6 +35,8 @@ class RecDom(RecorderDomain):
             st.env[('F', 'self', r.params)] = ACTIVE_PARAMS
         elif self.variant == 'playback':
             st.env[('F', 'self', r.playback)] = PLAYBACK
+        for attr, truth in sorted(self.assume_attrs.items()):
+            st = self._assume_truth(('attr', ACTIVE_PARAMS.name, attr), st, truth)
         return [st]
 
     def e_Subscript(self, e, frame, state):
@@ -190,7 +193,8 @@ def recorder_excm(ctx):
 
 
 def run_closure(ctx, kind, variant, track_free=(), reentry=True, cls=RecDom, key_extra=None, framework_faults=False, **domkw):
-    key = ('closure-run', kind, variant, tuple(sorted(track_free)), reentry, cls.__name__, key_extra, framework_faults)
+    key = ('closure-run', kind, variant, tuple(sorted(track_free)), reentry, cls.__name__, key_extra, framework_faults,
+           tuple(sorted((k, repr(v)) for k, v in domkw.items())))
 
     def make():
         ex = recorder_excm(ctx)
@@ -206,7 +210,8 @@ def run_closure(ctx, kind, variant, track_free=(), reentry=True, cls=RecDom, key
 
 
 def run_method(ctx, func, variant, track_free=(), reentry=True, cls=RecDom, framework_faults=False, **domkw):
-    key = ('method-run', func.qualname, variant, tuple(sorted(track_free)), reentry, cls.__name__, framework_faults)
+    key = ('method-run', func.qualname, variant, tuple(sorted(track_free)), reentry, cls.__name__, framework_faults,
+           tuple(sorted((k, repr(v)) for k, v in domkw.items())))
 
     def make():
         ex = recorder_excm(ctx)
